@@ -55,7 +55,7 @@ type Result struct {
 func (e *Engine) AutoArgs(p *Path, fn *ssa.Function) []Value {
 	var out []Value
 	for _, par := range fn.Params {
-		out = append(out, e.lazyValue(p, par.Name(), par.Type()))
+		out = append(out, e.lazyValue(p, core.ParamName(par), par.Type()))
 	}
 	return out
 }
@@ -257,7 +257,7 @@ func (e *Engine) operand(p *Path, fr *Frame, v ssa.Value) Value {
 		return val
 	}
 	if fv, ok := v.(*ssa.FreeVar); ok {
-		return &TopV{"free var " + fv.Name()}
+		return &TopV{"free var " + core.FreeVarName(fv)}
 	}
 	p.abort("no value for %s (%T) in %s", v.Name(), v, core.QualName(fr.fn))
 	return &TopV{"unbound"}
@@ -362,6 +362,22 @@ func (e *Engine) globalInit(p *Path, g *ssa.Global) Value {
 			}
 		case *ssa.Const:
 			return e.constant(p, v)
+		case *ssa.Call:
+			// sentinel errors: var ErrX = errors.New(...), stored once by the initialiser - never nil
+			if f := v.Call.StaticCallee(); f != nil && core.IsErrorType(g.Type().(*types.Pointer).Elem()) {
+				switch core.FullName(f) {
+				case "errors.New", "fmt.Errorf", "errors.Errorf":
+					return &ErrV{"sentinel " + g.Name()}
+				}
+			}
+		case *ssa.MakeInterface:
+			if core.IsErrorType(g.Type().(*types.Pointer).Elem()) {
+				if _, isPtr := v.X.Type().Underlying().(*types.Pointer); isPtr {
+					if _, isAlloc := v.X.(*ssa.Alloc); isAlloc {
+						return &ErrV{"sentinel " + g.Name()}
+					}
+				}
+			}
 		}
 	}
 	return &TopV{"global " + g.Name()}
@@ -685,7 +701,7 @@ func (e *Engine) fieldAddr(p *Path, fr *Frame, base Value, field int, baseT type
 			if a, ok := o.Fields[field].(*Agg); ok {
 				return &Ptr{Obj: a.Obj, Field: -1, Index: -1}
 			}
-			n := p.newObj(OStruct, joinName(o.Name, st.Field(field).Name()))
+			n := p.newObj(OStruct, joinName(o.Name, core.FieldVarName(st.Field(field))))
 			n.Lazy = o.Lazy
 			n.Type = st.Field(field).Type()
 			o.Fields[field] = &Agg{Obj: n}
@@ -721,7 +737,7 @@ func (e *Engine) loadField(p *Path, o *Obj, field int, t types.Type) Value {
 	name := fmt.Sprintf("f%d", field)
 	if st != nil {
 		if s := structOf(st); s != nil && field < s.NumFields() {
-			name = s.Field(field).Name()
+			name = core.FieldVarName(s.Field(field))
 		}
 	}
 	var v Value
